@@ -879,6 +879,8 @@ class Interp(object):
             for key, val in v.entries:
                 if self.branch(zbool(values_equal(self, k, key))):
                     return val
+            if getattr(v, 'default', None) is not None:
+                return v.default          # collections.Counter: a missing key counts 0
             raise PyExc('KeyError', 'key not in dict')
         if isinstance(v, SObj):
             gi = v.attrs.get('__getitem__')
@@ -1511,8 +1513,9 @@ class Interp(object):
                     self.exec_block(s.orelse, fr)
                     return
                 n += 1
-                if n > MAX_UNROLL:
-                    raise Unsupported('while unroll limit')
+                if n > getattr(self.target, 'max_unroll', MAX_UNROLL):
+                    raise Unsupported('while loop at line %d ran more than %d times on this path (the contract expects fewer: '
+                                      'possible non-termination)' % (s.lineno, getattr(self.target, 'max_unroll', MAX_UNROLL)))
                 try:
                     self.exec_block(s.body, fr)
                 except BreakSig:
